@@ -90,10 +90,29 @@ func (c *Conc) containerPorts(wl *Workload, st *Style) []interface{} {
 
 func (c *Conc) podSpec(wl *Workload, st *Style) obj {
 	cont := obj{"name": "c", "image": "img"}
-	if ps := c.containerPorts(wl, st); len(ps) > 0 {
+	ps := c.containerPorts(wl, st)
+	if len(ps) > 0 {
 		cont["ports"] = ps
 	}
-	return obj{"containers": []interface{}{cont}}
+	conts := []interface{}{cont}
+	// the same ports, in the same order, spread over two containers; a sidecar without ports
+	if len(ps) >= 2 && st.oneIn(3) {
+		k := 1 + st.R.Intn(len(ps)-1)
+		cont["ports"] = ps[:k]
+		conts = append(conts, obj{"name": "c2", "image": "img2", "ports": ps[k:]})
+	}
+	if st.oneIn(4) {
+		side := obj{"name": "sidecar", "image": "proxy"}
+		if st.coin() {
+			side["ports"] = st.emptyOrNull()
+		}
+		if st.coin() {
+			conts = append(conts, side)
+		} else {
+			conts = append([]interface{}{side}, conts...)
+		}
+	}
+	return obj{"containers": conts}
 }
 
 var apiVersions = map[string]string{
@@ -351,10 +370,15 @@ func (c *Conc) svcDoc(i int, s *Service) Doc {
 	spec := obj{}
 	if !s.SelNil {
 		spec["selector"] = labelsObj(s.Selector)
+	} else if i%2 == 1 {
+		spec["selector"] = obj{} // no selector, spelled out
 	}
 	var ps []interface{}
 	for _, p := range s.Ports {
-		po := obj{"port": c.PortLo(p.Port), "protocol": "TCP"}
+		po := obj{"port": c.PortLo(p.Port)}
+		if (i+len(ps))%3 != 0 {
+			po["protocol"] = "TCP" // the default, spelled out or not
+		}
 		if p.Name != "" {
 			po["name"] = p.Name
 		}
@@ -384,9 +408,21 @@ func (c *Conc) ingDoc(i int, g *Ingress) Doc {
 		spec["defaultBackend"] = c.backendObj(g.Default)
 	}
 	var rules []interface{}
-	for j, b := range g.Rules {
-		rules = append(rules, obj{"host": fmt.Sprintf("h%d.example.com", j), "http": obj{"paths": []interface{}{
-			obj{"path": "/", "pathType": "Prefix", "backend": c.backendObj(b)}}}})
+	if i%2 == 1 && len(g.Rules) >= 2 {
+		// the same backends as several paths of ONE rule (no host), instead of one rule per backend
+		var paths []interface{}
+		for j, b := range g.Rules {
+			paths = append(paths, obj{"path": fmt.Sprintf("/p%d", j), "pathType": "Prefix", "backend": c.backendObj(b)})
+		}
+		rules = append(rules, obj{"http": obj{"paths": paths}})
+	} else {
+		for j, b := range g.Rules {
+			rules = append(rules, obj{"host": fmt.Sprintf("h%d.example.com", j), "http": obj{"paths": []interface{}{
+				obj{"path": "/", "pathType": "Prefix", "backend": c.backendObj(b)}}}})
+		}
+	}
+	if i%3 == 0 {
+		spec["ingressClassName"] = "nginx"
 	}
 	if len(rules) > 0 {
 		spec["rules"] = rules
